@@ -26,10 +26,18 @@ def spawn(lines, timeout=600):
     return p.returncode, outs, p.stderr[-400:]
 
 
-def run_worker(cases):
-    """Run safe cases in one worker; if it dies, report which case killed it and carry on after it."""
+MAX_DEATHS = 6
+
+
+def run_worker(cases, max_deaths=MAX_DEATHS):
+    """Run safe cases in one worker; if it dies, report which case killed it and carry on after it.
+
+    A tree on which the interpreter dies again and again (an unchecked read let loose by an edit) would cost one
+    interpreter start per death: after `max_deaths` deaths in one batch the remaining cases are not run
+    (`{"skipped": …}`; they are neither judged nor counted) -- the deaths already seen are the failing inputs."""
     results = []
     todo = list(cases)
+    deaths = 0
     while todo:
         rc, outs, err = spawn([json.dumps(c) for c in todo])
         results.extend(outs)
@@ -38,6 +46,10 @@ def run_worker(cases):
         # the worker died on case number len(outs)
         results.append({"died": rc, "stderr": err})
         todo = todo[len(outs) + 1 :]
+        deaths += 1
+        if deaths >= max_deaths and todo:
+            results.extend({"skipped": "the worker died %d times in this batch" % deaths} for _ in todo)
+            break
     return results
 
 
@@ -77,8 +89,10 @@ def model_reads_outside(case):
 
 
 def well_formed_args(case):
+    # a limit that does not fit the C `int` parameter is a malformed argument (OverflowError), like a wrong type
     return (case.get("cols_arg", "int32") == "int32" and case.get("rows_arg", "list") == "list"
-            and (("limit" not in case) or isinstance(case["limit"], int)))
+            and (("limit" not in case) or (isinstance(case["limit"], int) and not isinstance(case["limit"], bool)
+                                           and -2**31 <= case["limit"] < 2**31)))
 
 
 def model_line(case):
@@ -87,7 +101,9 @@ def model_line(case):
         rows = [[k == "t", r] for r, k in zip(case["rows"], case["kinds"])]
         return "C10 collect " + wire.line(rows, case["cols"], case.get("limit", -1))
     if fn == "width":
-        return "C10 width " + wire.line([None if v is None else len(str(v)) for v in case["values"]])
+        from .. import c10_worker
+
+        return "C10 width " + wire.line([None if v is None else len(str(v)) for v in c10_worker.unj(case["values"])])
     return "C10 extract " + wire.line(case["fields"], case["data"])
 
 
@@ -133,6 +149,11 @@ def shadow_run(case):
         return {"ok": json.loads(json.dumps(c10_worker.run(case) if case["fn"] == "width" else c10_worker.run(case)))}
     except pyxshadow.MemoryUnsafe as e:
         return {"oob": str(e)}
+    except NameError as e:
+        # a C-API function / cimported name the de-cythoniser does not know: the shadow cannot speak for this source
+        _SHADOW[1][name] = "uses a name the shadow does not know: %s" % e
+        _SHADOW[0].pop(name, None)
+        return None
     except Exception as e:
         return {"raises": type(e).__name__}
     finally:
@@ -162,7 +183,9 @@ def judge(c, res):
     if c["fn"] == "width":
         if c.get("arg", "ndarray") != "ndarray":
             return None if "raises" in res else "a malformed argument did not raise a Python exception"
-        want = max([4] + [len(str(v)) for v in c["values"] if v is not None])
+        from .. import c10_worker
+
+        want = max([4] + [len(str(v)) for v in c10_worker.unj(c["values"]) if v is not None])
         return None if res.get("ok") == want else "display width is not the longest rendered non-null value (floor 4)"
     if c.get("fields_arg", "tuple") != "tuple" or c.get("data_arg"):
         return None if "raises" in res else "a malformed argument did not raise a Python exception"
@@ -170,6 +193,43 @@ def judge(c, res):
     if "raises" in res or res["ok"] != json.loads(json.dumps(want)):
         return "extracted fields differ from the dictionary's values / null"
     return None
+
+
+_SHRUNK = set()
+
+
+def _valid_kernel_case(c):
+    fn = c.get("fn")
+    if fn == "width":
+        return isinstance(c.get("values"), list) and set(c) <= {"fn", "values"}
+    if fn == "extract":
+        return isinstance(c.get("data"), dict) and isinstance(c.get("fields"), list) and all(isinstance(f, str) for f in c["fields"]) \
+            and set(c) <= {"fn", "data", "fields"}
+    if fn == "collect":
+        return (isinstance(c.get("rows"), list) and isinstance(c.get("kinds"), list) and len(c["rows"]) == len(c["kinds"])
+                and all(k == "t" for k in c["kinds"]) and all(isinstance(r, list) for r in c["rows"])
+                and all(len(r) >= len(c["rows"][0]) for r in c["rows"])
+                and isinstance(c.get("cols"), list) and all(isinstance(x, int) and not isinstance(x, bool) and abs(x) < 2**31 for x in c["cols"])
+                and ("limit" not in c or (isinstance(c["limit"], int) and not isinstance(c["limit"], bool) and abs(c["limit"]) < 2**31))
+                and set(c) <= {"fn", "rows", "kinds", "cols", "limit"})
+    return False
+
+
+def _shrink_kernel(c, clause, budget=20):
+    """A smaller well-formed case of the same helper that violates the same clause (each try is a fresh interpreter)."""
+    if not _valid_kernel_case(c):
+        return c
+
+    def still(cc):
+        if not _valid_kernel_case(cc) or cc.get("fn") != c["fn"]:
+            return False
+        r = run_worker([cc])[0]
+        return "died" not in r and judge(cc, r) == clause
+
+    try:
+        return core.shrink(c, still, budget=budget)
+    except Exception:
+        return c
 
 
 def evaluate(ctx, cases):
@@ -187,6 +247,9 @@ def evaluate(ctx, cases):
         midx.append(i)
     mouts = dict(zip(midx, ctx.model.batch(mlines)))
     for i, (c, res) in enumerate(zip(cases, results)):
+        if "skipped" in res:
+            ctx.hit("skipped-after-repeated-worker-deaths")
+            continue
         ctx.case(c, nontrivial=bool(c.get("rows") or c.get("values") or c.get("fields")))
         ctx.hit("fn:" + c["fn"])
         if c["fn"] == "collect":
@@ -194,13 +257,30 @@ def evaluate(ctx, cases):
             ctx.hit("malformed-arg" if not well_formed_args(c) else "well-formed")
         clause = judge(c, res)
         if clause is not None:
-            ctx.fail(c, clause, impl=res, model=mouts.get(i))
+            small = _shrink_kernel(c, clause) if ("died" not in res and clause not in _SHRUNK) else c
+            _SHRUNK.add(clause)
+            ctx.fail(small, clause, impl=res if small is c else run_worker([small])[0], model=mouts.get(i) if small is c else None)
             continue
         sres = shadow_run(c)
         if sres is not None:
             ctx.hit("shadow-executed")
             sclause = judge(c, sres)
             if sclause is not None:
+                if ("shadow", sclause) not in _SHRUNK and _valid_kernel_case(c):
+                    _SHRUNK.add(("shadow", sclause))
+
+                    def still_shadow(cc, fn=c["fn"], clause=sclause):
+                        if not _valid_kernel_case(cc) or cc.get("fn") != fn:
+                            return False
+                        r = shadow_run(cc)
+                        return r is not None and judge(cc, r) == clause
+
+                    try:
+                        small = core.shrink(c, still_shadow, budget=200)
+                    except Exception:
+                        small = c
+                    if small is not c:
+                        c, sres, res = small, shadow_run(small), run_worker([small])[0]
                 ctx.fail(c, sclause, impl={"shadow execution of compiled.pyx (source)": sres, "binary": res}, model=mouts.get(i),
                          detail="the working tree's compiled.pyx, executed through harness/pyxshadow.py, violates the property; the binary in the tree was not built from this source")
                 continue
@@ -291,14 +371,25 @@ def evaluate_sites(ctx, cases):
     mlines, mrefs = [], []
     verdicts = []
     for i, (c, res) in enumerate(zip(cases, results)):
+        if "skipped" in res:
+            ctx.hit("skipped-after-repeated-worker-deaths")
+            verdicts.append(None)
+            continue
         if c["fn"] == "pcollect":
             ctx.case(c, nontrivial=bool(c["rows"]) and bool(c["cols"]))
             ctx.hit("site:collect")
             ctx.hit("site:collect:limit:" + _limit_class(c))
             ctx.hit("site:collect:cols:" + c.get("ckind", "list") + (":by-name" if any(isinstance(x, str) for x in c["cols"]) else ":by-index"))
+            if c.get("np"):
+                ctx.hit("site:collect:positions-as-numpy-integers")
+            if any(isinstance(x, int) and not (-2**31 <= x < 2**31) for x in c["cols"]):
+                ctx.hit("site:collect:position-beyond-int32")
+            if any(not isinstance(x, (int, str)) for x in c["cols"]):
+                ctx.hit("site:collect:reference-neither-position-nor-name")
             clause = sites.judge_pcollect(c, res)
             verdicts.append(clause)
-            if clause is None and "died" not in res and all(len(r) == len(c["names"]) for r in c["rows"]):
+            if clause is None and "died" not in res and not c.get("np") and all(len(r) == len(c["names"]) for r in c["rows"]) \
+                    and all(isinstance(x, (int, str)) and not isinstance(x, bool) for x in c["cols"]):
                 mlines.append(sites.pcollect_model_line(c))
                 mrefs.append((i, res))
         else:
@@ -319,6 +410,8 @@ def evaluate_sites(ctx, cases):
     seq_history = []
     reported = {x.get("sig") for x in ctx.violations}
     for c, res, v in zip(cases, results, verdicts):
+        if "skipped" in res:
+            continue
         clause = v if (v is None or isinstance(v, str)) else v[1]
         if clause is not None:
             if clause in reported:
@@ -336,7 +429,8 @@ def evaluate_sites(ctx, cases):
                             if cc.get("ckind", "list") not in ("list", "tuple", "set", "single") or cc.get("fn") != "pcollect" \
                                     or any(len(r) != len(cc["names"]) for r in cc["rows"]) or cc.get("via", "collect") not in ("collect", "getitem") \
                                     or (cc.get("ckind") == "single" and len(cc["cols"]) != 1) or not isinstance(cc.get("lazy"), bool) \
-                                    or not all(isinstance(x, (int, str)) and not isinstance(x, bool) for x in cc["cols"]):
+                                    or not all((x is None or isinstance(x, (int, str, float, list, dict))) and not isinstance(x, bool) for x in cc["cols"]) \
+                                    or any(isinstance(x, (list, dict)) for x in cc["cols"]) != any(isinstance(x, (list, dict)) for x in c["cols"]):
                                 return False
                             return sites.judge_pcollect(cc, run_worker([cc])[0]) == clause
                         except Exception:
@@ -392,6 +486,8 @@ def run_sites(ctx):
 
     found = scan.scan_call_sites(core.REPO)
     ctx.note("call_sites", ["%s:%s %s -> %s(%s)" % (s["file"], s["line"], s["function"], s["kernel"], ", ".join(s["args"])) for s in found])
+    ctx.note("collect_callers", ["%s:%s %s -> %s.collect(%s)" % (s["file"], s["line"], s["function"], s["receiver"], s["column"])
+                                 for s in scan.scan_collect_callers(core.REPO)])
     und = sites.undriven(found)
     ctx.note("undriven_call_sites", ["%s:%s %s -> %s" % (s["file"], s["line"], s["function"], s["kernel"]) for s in und])
     missing = [d for d in sorted(sites.DRIVEN) if not any((s["file"], s["function"], s["kernel"]) == d for s in found)]
@@ -432,7 +528,8 @@ def random_cases(rng, n):
         if r < 0.6:
             nrows = rng.choice([0, 1, 2, 3, 5, 9, 40])
             width = rng.choice([0, 1, 2, 3, 4, 7])
-            vals = [0, 1, None, "s", 2.5, "é", [1, 2], -7]
+            vals = [0, 1, None, "s", 2.5, "é", [1, 2], -7, {"__float__": "nan"}, -0.0, {"__bytes__": "00ff"}, 2**70, "", True,
+                    {"__float__": "inf"}]
             rows = []
             for j in range(nrows):
                 w = width if (j == 0 or rng.random() < 0.8) else width + rng.randint(0, 2)  # later rows may be wider
@@ -443,7 +540,8 @@ def random_cases(rng, n):
                 cols = [rng.randint(-1, 1) for _ in range(k)]
             c = {"fn": "collect", "rows": rows, "kinds": ["t"] * nrows, "cols": cols}
             if rng.random() < 0.8:
-                c["limit"] = rng.choice([-1, -5, 0, 1, nrows, nrows + 1, rng.randint(-2, nrows + 2)])
+                c["limit"] = rng.choice([-1, -5, 0, 1, nrows, nrows + 1, rng.randint(-2, nrows + 2), nrows - 1, 2**31 - 1, -(2**31),
+                                         2**31, -(2**31) - 1])
             if rng.random() < 0.08:
                 c[rng.choice(["cols_arg", "rows_arg", "limit"])] = rng.choice(["int64", "list", "none", "tuple", "huge"])
                 if c.get("cols_arg") not in (None, "int32", "int64", "list", "none"):
@@ -464,7 +562,9 @@ def random_cases(rng, n):
                 c["data_arg"] = rng.choice(["list", "none"])
             out.append(c)
         else:
-            vals = [rng.choice([None, 0, 12345, "abc", "é" * rng.randint(0, 9), 1.5, -0.25, [1, 2, 3], "x" * rng.randint(0, 40), True])
+            vals = [rng.choice([None, 0, 12345, "abc", "é" * rng.randint(0, 9), 1.5, -0.25, [1, 2, 3], "x" * rng.randint(0, 40), True,
+                                {"__float__": "nan"}, {"__float__": "-inf"}, -0.0, {"__bytes__": "c3a9"}, 10**30, "日本語" * rng.randint(0, 3),
+                                "a\nb", "\u0301e", "😀" * rng.randint(0, 4), "abcd", "abcde", "abc"])
                     for _ in range(rng.randint(0, 8))]
             c = {"fn": "width", "values": vals}
             if rng.random() < 0.08:
@@ -490,11 +590,18 @@ def run(ctx):
     ctx.note("exhaustive_scope", "all tuple-row lists up to %dx%d, all index vectors of length 0..3 over -2..width+1, all limits -2..rows+2 (%d cases); then random shapes, malformed arguments, dictionaries, object arrays; ragged and non-tuple rows one per subprocess"
              % (dim, dim, len(cases)))
     evaluate(ctx, random_cases(ctx.rng, ctx.scale(4000, 60000)))
+    # shapes far from the small ones: many columns (all collected, some twice), many rows, a limit inside
+    wide = [[100 * j + k for k in range(300)] for j in range(3)]
+    evaluate(ctx, [{"fn": "collect", "rows": wide, "kinds": ["t"] * 3, "cols": list(range(300)) + [299, 0], "limit": 2},
+                   {"fn": "collect", "rows": [[j, str(j)] for j in range(5000)], "kinds": ["t"] * 5000, "cols": [1, 0], "limit": 4999},
+                   {"fn": "width", "values": ["x" * 10000, None, "y" * 9999]},
+                   {"fn": "extract", "data": {"k%d" % i: i for i in range(500)}, "fields": ["k%d" % i for i in range(499, -1, -7)] + ["absent"]}])
     # a ragged tail that lies beyond the limit is never read: safe
     evaluate(ctx, [{"fn": "collect", "rows": [[1, 2], [3, 4], [5]], "kinds": ["t", "t", "t"], "cols": [1], "limit": 2}])
     for w in UNSAFE_WITNESSES[: ctx.scale(2, 4)]:
         run_unsafe(ctx, w)
     run_sites(ctx)
+    ctx.note("source_shadow_unavailable", dict(shadow()[1]))
 
 
 def intensify(ctx):
